@@ -105,7 +105,7 @@ Section Calls.
     destruct (get (f_heap s) c) as [[ch m|dt k id m|lk m]|] eqn:Eg; try stay.
     destruct (Z.ltb size 0); [stay|].
     destruct (negb (check_permission m OpenWrite (v_user v))); [stay|].
-    cbn [fst]. apply step_ok_with_heap. eapply Inv_heap_set_data; eauto.
+    cbn [fst]. apply step_ok_with_heap. eapply Inv_heap_set_file; eauto.
   Qed.
 
   Lemma chmod_ok name mode : step_ok s (fst (chmod s v name mode)).
@@ -166,7 +166,8 @@ Section Calls.
         else
           let d1 := if has om OpenTruncate then [] else d in
           let at_ := 0%Z in
-          (with_heap s (upd (f_heap s) c (NFile d1 k i m)), inr (new_handle c vi name at_ om))
+          let m1 := if has om OpenTruncate then drop_privs (v_user v) m else m in
+          (with_heap s (upd (f_heap s) c (NFile d1 k i m1)), inr (new_handle c vi name at_ om))
     | Some (NDir _ m) =>
         if has om OpenCreateExcl then (s, inl (RFail EFileExists))
         else if has om OpenWrite || has om OpenCreate || has om OpenTruncate then (s, inl (RFail EIsADirectory))
@@ -229,7 +230,8 @@ Section Calls.
     - match goal with |- context [if ?b then _ else _] => destruct b end; [apply open_post_stay|].
       destruct (has om OpenCreateExcl); [apply open_post_stay|].
       cbv zeta.
-      destruct (Inv_heap_set_data _ c d k i m (if has om OpenTruncate then [] else d) IH Eg) as [H1 H2].
+      destruct (Inv_heap_set_file _ c d k i m (if has om OpenTruncate then [] else d)
+                  (if has om OpenTruncate then drop_privs (v_user v) m else m) IH Eg) as [H1 H2].
       split; cbn [fst snd].
       + now apply step_ok_with_heap.
       + intros f [= <-] c'. cbn [new_handle hd_node with_heap f_heap]. intros [= <-]. rewrite upd_length. exact Hc.
